@@ -134,6 +134,9 @@ def make_environ(req, streams):
         'wsgi.multithread': False, 'wsgi.multiprocess': False, 'wsgi.run_once': False, 'SCRIPT_NAME': '',
         'x.req_id': req['id'], 'x.marker': mk,
     }
+    if req['class'] == 'nopath':
+        # PEP 3333: a variable whose value would be the empty string may be left out by the server
+        del env['PATH_INFO']
     if req.get('ctype'):
         env['CONTENT_TYPE'] = req['ctype']
     if req.get('chunked'):
@@ -533,7 +536,8 @@ def enc_req(req):
         r = [1] + c3.S('DELETE,GET,POST,PUT')
     else:
         r = [2] + enc_list(rt['rhooks'], c3.enc_hprog) + c3.enc_hprog(rt['h'])
-    return ([req['id'], int(case['method'] == 'HEAD'), int(case['fw']), int(case['json']), int(replaced)]
+    return ([req['id'], int(case['method'] == 'HEAD'), int(case['fw']), int(case['json']), int(replaced),
+             int(req['class'] == 'nopath')]
             + c3.S(raw_path_of(req)) + c3.S(url_repr(req))
             + enc_list(case['before'], c3.enc_hprog) + enc_list(case['after'], c3.enc_hprog) + r
             + enc_list(raised, lambda k: [k[0], int(k[1])]))
@@ -603,7 +607,9 @@ def oracle(case, obs):
         if len(obs.get(key_, [])) > bound:
             return '%d %s alive after %d requests (bound %d)' % (len(obs[key_]), what, len(case['reqs']), bound)
     if not case.get('other_app'):
-        allowed = {case['reqs'][-1]['id']} | {o for owners in obs['tb'] for o in owners} | {c for c in obs['ctx'] if c is not None}
+        # the request cell holds the last request that reached request.__init__ (one without PATH_INFO does not)
+        reached = [r['id'] for r in case['reqs'] if r['class'] != 'nopath']
+        allowed = set(reached[-1:]) | {o for owners in obs['tb'] for o in owners} | {c for c in obs['ctx'] if c is not None}
         for what, key_ in (('environ', 'alive'), ('input stream', 'alive_streams')):
             extra = [i for i in obs.get(key_, []) if i not in allowed]
             if extra:
@@ -719,6 +725,11 @@ def g_request(rng, rid):
     req = dict(id=rid, qs=rng.choice(['', '', 'a=1', 'q=<x>&y=%22', 'a=2&b=']), cookie=rng.choice(['', '', 'v1', 'zz']),
                xcustom=rng.choice(['', 'c%d' % rid]), remote=rng.choice(['', '10.0.0.%d' % (rid % 250)]),
                xhr=rng.random() < 0.3)
+    if rng.random() < 0.07:
+        # no PATH_INFO key at all: _handle fails before request.__init__, the last-resort page answers
+        req.update({'class': 'nopath', 'case': plain(dict(k='falsy', v='none'), method=rng.choice(['GET', 'HEAD', 'POST']),
+                                                     json=rng.random() < 0.3)})
+        return req
     if r < 0.12:
         req.update({'class': 'badpath', 'bad': rng.choice(['utf8', 'latin1', 'trunc']),
                     'case': plain(dict(k='falsy', v='none'), method=rng.choice(['GET', 'HEAD', 'POST']),
@@ -773,6 +784,8 @@ def retention_case(cls, n):
             req = b
         elif cls == 'badpath':
             req.update({'class': 'badpath', 'bad': 'utf8', 'case': plain(dict(k='falsy', v='none'))})
+        elif cls == 'nopath':
+            req.update({'class': 'nopath', 'case': plain(dict(k='falsy', v='none'))})
         elif cls == 'routerboom':
             req.update({'class': 'routerboom', 'case': dict(plain(dict(k='falsy', v='none')), routing=dict(k='raise'))})
         elif cls == 'crash':
@@ -795,7 +808,7 @@ def retention_case(cls, n):
 
 
 RET_CLASSES = ['oversize', 'badchunk', 'okbody', 'badjson', 'noname', 'bigfield', 'badpath', 'crash', '404', '405', 'cookie',
-               'routerboom']
+               'routerboom', 'nopath']
 
 
 def _req(rid, case, **kw):
@@ -894,6 +907,20 @@ def corpus():
                           dict(retention_case('okbody', 1)['reqs'][0], id=4, short=1), _req(5, st_case(520, 'raise'))])
         base.update(flags)
         cs.append(base)
+    # an environ without PATH_INFO: _handle raises before request.__init__(environ); the last-resort page must be made
+    # from this request's environ, whatever the thread served before (a GET / HEAD / POST with its own path and cookies)
+    # (seeded change: the page and the HEAD test read app.request, which still holds the previous request)
+    def nopath(rid, method, **kw):
+        return dict(id=rid, qs='', cookie='', **{'class': 'nopath', 'case': plain(dict(k='falsy', v='none'), method=method, **kw)})
+    special_get = dict(plain(hello), path='special')
+    for prev_m in ('GET', 'HEAD', 'POST'):
+        for m in ('GET', 'HEAD'):
+            cs.append(dict(kind='history', peek=False, eh=[],
+                           reqs=[_req(0, dict(special_get, method=prev_m), qs='token=secret'), nopath(1, m)]))
+            cs.append(dict(kind='history', peek=True, eh=[],
+                           reqs=[_req(0, dict(cookie, method=prev_m)), nopath(1, m, json=True), _req(2, plain(hello))]))
+    cs.append(dict(kind='history', peek=False, eh=[], reqs=[nopath(0, 'GET'), nopath(1, 'HEAD'), _req(2, cookie), dict(bad, id=3),
+                                                            nopath(4, 'GET'), dict(over[0], id=5), nopath(6, 'HEAD')]))
     cs.append(dict(kind='rule', reset=False, ids=[1, 2, 3]))
     cs.append(dict(kind='rule', reset=True, ids=[1, 2, 3]))
     cs.append(dict(kind='history', peek=True, eh=[], reqs=[over[0], _req(1, cookie), dict(retention_case('badchunk', 3)['reqs'][2]),
@@ -928,6 +955,8 @@ def nontrivial(case, obs):
     def leaves_state(r):
         if r['class'] in ('badpath', 'body', 'routerboom'):
             return True
+        if r['case'].get('path') == 'special' or r['case']['method'] != 'GET':
+            return True                # its path / method must not show in a later last-resort page
         found = []
         c3.walk(r['case'], lambda d: found.append(1) if d.get('m') in ('cookie', 'set', 'add', 'status') or d.get('cookies') else None)
         return bool(found)
@@ -957,7 +986,7 @@ def shrink(case):
     if case['eh']:
         yield dict(case, eh=[])
     for i, r in enumerate(reqs):
-        if r['class'] not in ('badpath', 'body', 'echo', 'routerboom'):
+        if r['class'] not in ('badpath', 'body', 'echo', 'routerboom', 'nopath'):
             for sc in c3.shrink(r['case']):
                 yield dict(case, reqs=reqs[:i] + [dict(r, case=sc)] + reqs[i + 1:])
 
@@ -966,7 +995,8 @@ PREDICATES = {}
 
 API_SURFACE = [
     ('Ombott._handle: request.__init__(environ) / response.__init__()', 'covered by every history; the early return for an '
-     'undecodable path by badpath requests (utf8 / non-latin1 / truncated)'),
+     'undecodable path by badpath requests (utf8 / non-latin1 / truncated); environ without PATH_INFO (KeyError before '
+     'request.__init__, answered by the last-resort page of Ombott.wsgi) by nopath requests after GET / HEAD / POST'),
     ('per-thread cells of Request / Response (ts_props)', 'covered by peek hook (response as handed over) and echo handler (request)'),
     ('HTTPResponse.apply / BaseResponse.__init__', 'covered: cookies/headers/status left by earlier requests, shared instances (C03 pair)'),
     ('DefaultConfig.errors_map + BaseRequest._raise', 'covered by body requests (oversize -> 413, malformed chunked -> 400): traceback '
